@@ -10,11 +10,31 @@ mod runner;
 
 use runner::{Engine, Opts, Tier};
 
+/// Counting allocator: recognises the (padded) task allocations of the `task` engine by their size.
+struct CountingAlloc;
+unsafe impl std::alloc::GlobalAlloc for CountingAlloc {
+    unsafe fn alloc(&self, l: std::alloc::Layout) -> *mut u8 {
+        if l.size() >= engines::task::TASK_PAD && l.size() < engines::task::TASK_PAD + 256 {
+            engines::task::TASK_ALLOCS.fetch_add(1, std::sync::atomic::Ordering::SeqCst);
+        }
+        std::alloc::System.alloc(l)
+    }
+    unsafe fn dealloc(&self, p: *mut u8, l: std::alloc::Layout) {
+        if l.size() >= engines::task::TASK_PAD && l.size() < engines::task::TASK_PAD + 256 {
+            engines::task::TASK_FREES.fetch_add(1, std::sync::atomic::Ordering::SeqCst);
+        }
+        std::alloc::System.dealloc(p, l)
+    }
+}
+#[global_allocator]
+static GLOBAL: CountingAlloc = CountingAlloc;
+
 fn engine_by_name(n: &str) -> Option<Box<dyn Engine>> {
     match n {
         "sinks" => Some(Box::new(engines::sinks::Sinks)),
         "pq" => Some(Box::new(engines::pq::Pq)),
         "sched" => Some(Box::new(engines::sched::Sched)),
+        "task" => Some(Box::new(engines::task::TaskEngine)),
         "synccell" => Some(Box::new(engines::synccell::SyncCellEngine)),
         _ => None,
     }
@@ -42,6 +62,13 @@ fn main() {
         corpus_dir: None,
         replay: None,
     };
+    if args.len() == 6 && args[2] == "--child" {
+        if std::env::var("VERIF_PANIC_VERBOSE").is_err() {
+            std::panic::set_hook(Box::new(|_| {}));
+        }
+        runner::child_main(engine.as_ref(), &args[3], args[4].parse().unwrap_or(0), &args[5]);
+        return;
+    }
     let mut report_path: Option<String> = None;
     let mut i = 2;
     while i < args.len() {
